@@ -98,6 +98,29 @@ theorem unfit_constraint_is_rejected_by_the_reference (c : Cfg) (nm : String) (p
     refChild c (.derived nm parent cs allCs items) pv = .err .constraintValue := by
   simp [refChild, decPartialWith, h]
 
+/-- **… so a fallback means the reference accepts none of the candidates either.**  If the emitted parser builds the fallback
+    child (no child's `fromPayload` is entered), then for every candidate child of the tree whose own fields are in the class
+    of the parser theorem the reference's `decode_partial` rejects the parent value: a violated constraint is a
+    `ConstraintValue` error, and a static width that differs from the payload's length leaves octets over or runs short
+    (`decItems_exact_len`).  The width test of `fits_childs_constraints` never hides a child the reference would accept. -/
+theorem java_fallback_means_no_candidate_is_accepted (c : Cfg) (pv : Value) (nm : String) (parent : Body)
+    (cs allCs : List (String × Nat)) (items : Items) (fb : Bool) (ks : List Node)
+    (hw : wfNode (.mk (.derived nm parent cs allCs items) fb ks) = true)
+    (hcand : candidate (.mk (.derived nm parent cs allCs items) fb ks) = true)
+    (hfit : fits pv (.mk (.derived nm parent cs allCs items) fb ks) = false) (v : Value) :
+    refChild c (.derived nm parent cs allCs items) pv ≠ .ok v := by
+  simp only [wfNode, Bool.and_eq_true] at hw
+  obtain ⟨⟨hp, hwi⟩, _⟩ := hw
+  simp only [fits, Bool.and_eq_false_iff, Bool.not_eq_false'] at hfit
+  rcases hfit with hv | hwd
+  · rw [unfit_constraint_is_rejected_by_the_reference c nm parent cs allCs items pv hv]
+    intro h; cases h
+  · cases how : ownWidth items with
+    | none => simp [how] at hwd
+    | some w =>
+      simp only [how] at hwd
+      exact unfit_width c nm parent cs allCs items hp hwi w how pv hwd v
+
 /-! non-vacuity: `packet R { k: 8, _payload_ }`, `packet A : R (k = 1) { x: 8 }`, `packet B : R (k = 2) { y: 16 }`;
     `02 34 12` is returned as a `B` with `y = 0x1234`; `02 34` fits `B`'s constraint but not its width: the fallback
     child `UnknownR` with the raw payload -/
